@@ -122,6 +122,8 @@ func (c checkSchema) checkNode(node schema.Node, ss map[string]schema.Type) {
 	case *schema.MixedNode:
 		c.checkCompatibilityOfConstraints(node)
 		c.checkLinksOfNode(node, ss) // can panic
+		// The rule-set of an "or" rule: {type: "object", additionalProperties: "@foo"}.
+		c.checkAdditionalPropertiesConstraint(node, ss)
 	case *schema.MixedValueNode:
 		c.checkCompatibilityOfConstraints(node)
 		c.checkLinksOfNode(node, ss) // can panic
